@@ -36,7 +36,11 @@ def build(case, tmp):
     tr = Truth()
     if fmt == 'v4':
         from harness import v4synth
-        syn = v4synth.make_v4(rng, T=case['T'], F=case['F'], n_ants=case['n_ants'], shuffle_bls=True,
+        extra = {}
+        if case.get('via_rdb'):
+            os.makedirs(os.path.join(tmp, 'store'), exist_ok=True)
+            extra = dict(store_dir=os.path.join(tmp, 'store'), rdb_path=os.path.join(tmp, 'syn_sdp_l0.full.rdb'))
+        syn = v4synth.make_v4(rng, T=case['T'], F=case['F'], n_ants=case['n_ants'], shuffle_bls=True, **extra,
                               activity=[(-1.0, 'slew'), (case['T'] // 3 + 0.5, 'track'), (2 * case['T'] // 3 + 0.5, 'scan')])
         d = syn.dataset
         tr.vis = syn.stored['correlator_data']
@@ -100,7 +104,8 @@ def gen_case(rng, fmt=None):
     fmt = fmt or rng.choice(['v4', 'v4', 'v3', 'v3', 'v2', 'v1'])
     T, F = rng.randint(2, 9), rng.randint(1, 6)
     case = dict(fmt=fmt, T=T, F=F, n_ants=rng.randint(1, 3), seed=rng.randrange(2 ** 31),
-                dup=rng.random() < 0.4, sideband=rng.choice([1, 1, -1]), keepdims=rng.random() < 0.4)
+                dup=rng.random() < 0.4, sideband=rng.choice([1, 1, -1]), keepdims=rng.random() < 0.4,
+                via_rdb=rng.random() < 0.35)
     n_ants = case['n_ants'] if fmt != 'v1' else min(case['n_ants'], 2)
     B = {1: 4, 2: 12, 3: 24}[n_ants] if fmt == 'v4' else None
     case['ops'] = []
@@ -286,6 +291,8 @@ def evaluate(ctx, cases):
     for c in cases:
         v, nontriv = run_case(ctx, c)
         ctx.tag('fmt-' + c['fmt'])
+        if c['fmt'] == 'v4':
+            ctx.tag('v4-via-katdal.open(rdb)' if c.get('via_rdb') else 'v4-direct-source')
         if c['fmt'] in ('v2', 'v3'):
             ctx.tag('keepdims' if c['keepdims'] else 'dropdims')
         if c['fmt'] == 'v3':
